@@ -1,4 +1,5 @@
 import TeleportModel.Lemmas.Xibc
+import TeleportModel.Proofs.C08
 /-
 C02 — authenticity of receives and acknowledgements.
 
@@ -142,6 +143,72 @@ theorem tss_ack_needs_tss_signer (env : Env) (c : Chain) (now : UInt64) (pk ak p
   obtain ⟨cl', hcl', hv⟩ := (handle_ack_effect (deliver_ok_handle hok)).verified
   rw [hcl] at hcl'; injection hcl' with hcl'; subst hcl'
   exact tss_verify_signer hk hv
+
+/-! ### EVM-secured counterparties: the stored word is compared exactly -/
+section EvmValue
+open TM.EvmProof (checkProofResult rlpString trimZeros leftPad32)
+
+/-- Shape of the BSC / ETH membership verifier: the account and storage proofs establish (abstractly: `lookup`) the RLP
+value the storage trie holds for the slot of `path` under `root` — `none` if a proof fails — and the value check is the
+transcribed `checkProofResult`: RLP-decode the trimmed word and pad it on the LEFT to 32 bytes. -/
+def EvmShaped (env : Env) (lookup : Bytes → Bytes → Bytes → Bytes → Option Bytes) : Prop :=
+  ∀ name kind root proof path value, (kind = ClientKind.bsc ∨ kind = ClientKind.eth) →
+    env.verify name kind root proof path value =
+      (match lookup name root proof path with
+       | some r => checkProofResult r value
+       | none => false)
+
+/-- what the proofs establish is what the EVM stores for the sealed word: the RLP string of its minimal big-endian
+form (`sealed name root path` = the 32-byte word the packet contract holds at the slot of `path` in the state `root`) -/
+def LookupSound (lookup : Bytes → Bytes → Bytes → Bytes → Option Bytes) (sealed : Bytes → Bytes → Bytes → Option Bytes) : Prop :=
+  ∀ name root proof path r, lookup name root proof path = some r →
+    ∃ w, sealed name root path = some w ∧ w.length = 32 ∧ r = rlpString (trimZeros w)
+
+/-- **evm_value_exact**: the EVM clients accept a 32-byte commitment / acknowledgement hash only if the sealed word is
+exactly that hash — a word with leading zero bytes is compared after LEFT-padding its trimmed form, so neither `W[k:]‖0^k`
+nor `0^k‖H[0..32-k)` passes for another word. -/
+theorem evm_value_exact {env : Env} {lookup : Bytes → Bytes → Bytes → Bytes → Option Bytes}
+    {sealed : Bytes → Bytes → Bytes → Option Bytes} (hshape : EvmShaped env lookup) (hsound : LookupSound lookup sealed)
+    {name : Bytes} {kind : ClientKind} (hkind : kind = .bsc ∨ kind = .eth) {root proof path value : Bytes}
+    (hlen : value.length = 32) (hv : env.verify name kind root proof path value = true) :
+    sealed name root path = some value := by
+  rw [hshape name kind root proof path value hkind] at hv
+  split at hv
+  · rename_i r hr
+    obtain ⟨w, hw, hwl, hrw⟩ := hsound _ _ _ _ _ hr
+    obtain ⟨t, hdec, _, htrim⟩ := (TM.EvmProof.leading_zero_values hlen r).mp hv
+    have hl := TM.EvmProof.trimZeros_length_le w
+    rw [hrw, TM.EvmProof.rlpDecodeBytes_rlpString (by omega)] at hdec
+    injection hdec with hdec
+    subst hdec
+    -- trimZeros (trimZeros w) = trimZeros value; pad both back to 32 bytes
+    have h1 : leftPad32 (trimZeros w) = value := (TM.EvmProof.leftPad32_eq_iff hlen).mpr ⟨by omega, htrim⟩
+    rw [TM.EvmProof.leftPad32_trimZeros hwl] at h1
+    rw [hw, h1]
+  · cases hv
+
+/-- conversely a genuinely stored word is accepted whatever its number of leading (or trailing) zero bytes -/
+theorem evm_value_roundtrip {w : Bytes} (hw : w.length = 32) : checkProofResult (rlpString (trimZeros w)) w = true :=
+  TM.EvmProof.leading_zero_roundtrip hw
+
+/-- **evm_recv_exact**: an accepted receive secured by a BSC / ETH client ⇒ under the root the client holds at the proof
+height the packet contract's sealed word at the commitment path of exactly this triple is exactly sha256(ABIPack p). -/
+theorem evm_recv_exact (env : Env) (lookup : Bytes → Bytes → Bytes → Bytes → Option Bytes)
+    (sealed : Bytes → Bytes → Bytes → Option Bytes) (hshape : EvmShaped env lookup) (hsound : LookupSound lookup sealed)
+    (hsha : ∀ b, (env.sha256 b).length = 32)
+    (c : Chain) (now : UInt64) (pk pf : Bytes) (h : Height) (s : Bytes) (cb : Callback) (cl : Client)
+    (hcl : c.clients.get (env.decodePacket pk).1.src = some cl) (hk : cl.kind = .bsc ∨ cl.kind = .eth)
+    (hok : (deliver env c now (.recvPacket pk pf h s cb)).2 = .ok) :
+    ∃ root, cl.cons.get h = some root ∧
+      sealed (env.decodePacket pk).1.src root (commitKey (env.decodePacket pk).1) =
+        some (env.sha256 (env.encodePacket (env.decodePacket pk).1)) := by
+  obtain ⟨_, cl', hcl', hv⟩ := recv_authentic env c now pk pf h s cb hok
+  rw [hcl] at hcl'; injection hcl' with hcl'; subst hcl'
+  rcases hv with ⟨ht, _⟩ | ⟨_, _, root, hroot, _, hver⟩
+  · rcases hk with hk | hk <;> rw [hk] at ht <;> cases ht
+  · exact ⟨root, hroot, evm_value_exact hshape hsound hk (hsha _) hver⟩
+
+end EvmValue
 
 /-! ### contrapositive: altered messages are rejected -/
 /-- soundness of the membership verifiers w.r.t. an abstract "the counterparty state with this root maps path to
